@@ -177,7 +177,7 @@ PROPS = {
         "assumptions": ["the multi-suite path's discovery (RetrieveSupportedCipherSuites) is abstracted to its result in `determine`; its own correctness is C16"],
     },
     "C12": {
-        "claim": "determine = first preference among the advertised suites (choose_first_supported with 'no earlier preference is advertised'), the no-supported-cipher-suite error iff none is, a single preference without discovery, no preference => suite 17 then 3 (defaults + regenerated fact defaults_fact); no_downgrade: for every reply script a returned session carries exactly the proposed authentication/integrity/confidentiality algorithms, which are supported ones (never None/unknown) - hence never a downgraded session; never a panic is C05-level totality of the model (structural recursion) + correspondence.",
+        "claim": "determine = first preference among the advertised suites (choose_first_supported with 'no earlier preference is advertised'), the no-supported-cipher-suite error iff none is, a single preference without discovery, no preference => suite 17 then 3 (defaults + regenerated fact defaults_fact); discovery_then_choice / first_advertised_preference compose the choice with discovery EXECUTED at the wire (chunk loop over list indices + record parser, C16): against a BMC holding any list of well-formed cipher-suite records the proposal is the first preference occurring as an (authentication, integrity, confidentiality) combination of some record; a failed discovery is an error (discovery_failure_is_error); the Lean driver evaluates this composed pipeline for every suite op. no_downgrade: for every reply script a returned session carries exactly the proposed authentication/integrity/confidentiality algorithms, which are supported ones (never None/unknown) - hence never a downgraded session; never a panic is C05-level totality of the model (structural recursion) + correspondence.",
         "note": 'trusted: Lean kernel; the byte-level handshake model (newSession = stepOpen / stepRakp2 / stepRakp4 over buildAndSendPayload exchanges, hand-written from v2session_new.go, v2sessionless.go, authenticator.go, hasher.go, confidentiality.go; tied by byte-exact correspondence: every datagram, the result class and SIK/K1/K2 against the real NewV2Session with crypto/rand replaced); HMAC as an abstract function (no cryptographic strength claimed); Spec/Rakp.lean transcribes §13.28-13.32; the reference BMC in the harness (sim.go) is an independent Go implementation used for the model-free verdicts',
         "technique": 'Lean 4 proof (first-match characterisation of the selection; inversion of the handshake model) + exhaustive differential correspondence on small universes',
         "ref": '§5 C12',
